@@ -232,3 +232,160 @@ Definition canon_v4 (s : slate4) : list Z :=
                   ++ (match pf_rsig p with Some g => 1%Z :: craw g | None => [0%Z] end)
       end)
   ++ (match s_feat_args s with None => [0%Z] | Some l => [1%Z; cz l] end).
+
+(** ------------------------------------------------------------------------------------
+    V4 JSON at the level of field maps: which keys are present and what their decoded
+    byte strings / integers are (serde_json's text layer, hex/base64 text, the uuid and
+    "S1".."I3" labels and the compact form of secp signatures are external and trusted).
+    [to_fields] follows the [skip_serializing_if] rules of slate_versions/v4.rs,
+    [of_fields] the [default] rules and the fixed-size conversions. *)
+Record jsig := mkJSig { j_xs : bytes; j_nonce : bytes; j_part : option bytes }.
+Record jcom := mkJCom { j_f : option N; j_c : bytes; j_p : option bytes }.
+Record jproof := mkJProof { j_saddr : bytes; j_raddr : bytes; j_rsig : option bytes }.
+Record jslate := mkJSlate {
+  j_ver : N; j_bhv : N; j_id : bytes; j_sta : N;
+  j_off : option bytes; j_num_parts : option N; j_amt : option N; j_fee : option N;
+  j_feat : option N; j_ttl : option N;
+  j_sigs : list jsig; j_coms : option (list jcom); j_proof : option jproof;
+  j_feat_args : option N
+}.
+
+Definition omit_if (skip : bool) (v : N) : option N := if skip then None else Some v.
+Definition all_zero (b : bytes) : bool := forallb (fun x => x =? 0) b.
+
+Definition to_fields (s : slate4) : jslate :=
+  mkJSlate (s_ver s) (s_bhv s) (s_id s) (s_sta s)
+    (if all_zero (s_off s) then None else Some (s_off s))       (* offset_is_zero *)
+    (omit_if (s_num_parts s =? 2) (s_num_parts s))              (* num_parts_is_2 *)
+    (omit_if (s_amt s =? 0) (s_amt s))                          (* u64_is_blank *)
+    (omit_if (s_fee s =? 0) (s_fee s))                          (* fee_is_zero: the raw value *)
+    (omit_if (s_feat s =? 0) (s_feat s))                        (* u8_is_blank *)
+    (omit_if (s_ttl s =? 0) (s_ttl s))
+    (map (fun g => mkJSig (sg_xs g) (sg_nonce g) (sg_part g)) (s_sigs s))
+    (option_map (map (fun c => mkJCom (omit_if (cm_f c =? 0) (cm_f c)) (cm_c c) (cm_p c))) (s_coms s))
+    (option_map (fun p => mkJProof (pf_saddr p) (pf_raddr p) (pf_rsig p)) (s_proof s))
+    (s_feat_args s).
+
+(** [BlindingFactor::from_slice] / [Commitment::from_vec]: first n bytes, zero padded *)
+Definition pad_to (n : nat) (b : bytes) : bytes := firstn n b ++ repeat 0 (n - length b)%nat.
+Definition dflt (d : N) (o : option N) : N := match o with Some v => v | None => d end.
+
+Fixpoint map_res {A B} (f : A -> result B) (l : list A) : result (list B) :=
+  match l with
+  | [] => Ok []
+  | x :: r => let* y := f x in let* ys := map_res f r in Ok (y :: ys)
+  end.
+
+Section JsonDecode.
+Variable guarded : bool.
+Variable valid_pk : bytes -> bool.
+Variable valid_ed : bytes -> bool.
+Variable valid_sig : bytes -> bool.   (* secp Signature::from_compact accepts the 64 bytes *)
+
+Definition of_jsig (j : jsig) : result sigdata :=
+  if negb ((length (j_xs j) =? 33)%nat && valid_pk (j_xs j)) then Err EDeser else
+  if negb ((length (j_nonce j) =? 33)%nat && valid_pk (j_nonce j)) then Err EDeser else
+  match j_part j with
+  | None => Ok (mkSig (j_xs j) (j_nonce j) None)
+  | Some b =>
+    (* grin_core option_sig_serde checks the length itself *)
+    if (length b <? 64)%nat then Err EDeser else
+    if valid_sig (firstn 64 b) then Ok (mkSig (j_xs j) (j_nonce j) (Some (firstn 64 b)))
+    else Err EDeser
+  end.
+
+Definition of_jcom (j : jcom) : result comdata :=
+  let* p := match j_p j with
+            | None => Ok None
+            | Some b => let* x := helper guarded valid_ed 13 b in Ok (Some x)
+            end in
+  Ok (mkCom (dflt 0 (j_f j)) (pad_to 33 (j_c j)) p).
+
+Definition of_jproof (j : jproof) : result proofdata :=
+  let* sa := helper guarded valid_ed 9 (j_saddr j) in
+  let* ra := helper guarded valid_ed 9 (j_raddr j) in
+  let* sg := match j_rsig j with
+             | None => Ok None
+             | Some b => let* x := helper guarded valid_ed 6 b in Ok (Some x)
+             end in
+  Ok (mkProof sa ra sg).
+
+Definition of_fields (j : jslate) : result slate4 :=
+  if 6 <? j_sta j then Err EDeser else
+  let* sigs := map_res of_jsig (j_sigs j) in
+  let* coms := match j_coms j with
+               | None => Ok None
+               | Some l => let* x := map_res of_jcom l in Ok (Some x)
+               end in
+  let* proof := match j_proof j with
+                | None => Ok None
+                | Some p => let* x := of_jproof p in Ok (Some x)
+                end in
+  Ok (mkSlate4 (j_ver j) (j_bhv j) (j_id j) (j_sta j)
+               (match j_off j with Some b => pad_to 32 b | None => repeat 0 32 end)
+               (dflt 2 (j_num_parts j)) (dflt 0 (j_amt j)) (dflt 0 (j_fee j))
+               (dflt 0 (j_feat j)) (dflt 0 (j_ttl j))
+               sigs coms proof (j_feat_args j)).
+
+End JsonDecode.
+
+(** ------------------------------------------------------------------------------------
+    Slate <-> SlateV4 (libwallet/src/slate.rs): the internal slate keeps the transaction
+    (inputs, outputs, one kernel, offset) where V4 keeps the commitment list. Kernel excess
+    and signature are recomputed with secp256k1 and are left out. *)
+Inductive kfeat := KPlain | KHeightLocked (lock : N) | KNoRecentDuplicate (rel : N).
+Record txdata := mkTx {
+  tx_inputs : list comdata;     (* features, commitment; no proof *)
+  tx_outputs : list comdata;    (* features, commitment, proof *)
+  tx_kernel : kfeat;
+  tx_kernel_fee : N;
+  tx_offset : bytes
+}.
+Record slate := mkSlate {
+  sl_v4 : slate4;               (* every field V4 carries except coms *)
+  sl_tx : option txdata
+}.
+
+Definition is_output (c : comdata) : bool := match cm_p c with Some _ => true | None => false end.
+
+(** [tx_from_slate_v4]: feat 1 (not 2) is mapped to HeightLocked, everything else to Plain *)
+Definition kernel_of_v4 (s : slate4) : kfeat :=
+  if s_feat s =? 1 then KHeightLocked (match s_feat_args s with Some l => l | None => 0 end)
+  else KPlain.
+
+(** the kernel the wallet itself builds for its slate ([Slate::kernel_features]): plain,
+    height locked (feat 2) or no-recent-duplicate (feat 3) with the argument *)
+Definition wallet_kernel (s : slate4) : option kfeat :=
+  match s_feat s, s_feat_args s with
+  | 0, _ => Some KPlain
+  | 2, Some l => Some (KHeightLocked l)
+  | 3, Some l => Some (KNoRecentDuplicate l)
+  | _, _ => None
+  end.
+
+(** [OutputFeaturesV4 -> OutputFeatures -> OutputFeaturesV4]: 1 stays, everything else is 0 *)
+Definition norm_f (c : comdata) : comdata := mkCom (if cm_f c =? 1 then 1 else 0) (cm_c c) (cm_p c).
+
+Definition slate_of_v4 (s : slate4) : slate :=
+  mkSlate s
+    (match s_coms s with
+     | None => None
+     | Some cs => Some (mkTx (map norm_f (filter (fun c => negb (is_output c)) cs))
+                             (map norm_f (filter is_output cs))
+                             (kernel_of_v4 s) (s_fee s) (s_off s))
+     end).
+
+Definition set_coms (s : slate4) (c : option (list comdata)) : slate4 :=
+  mkSlate4 (s_ver s) (s_bhv s) (s_id s) (s_sta s) (s_off s) (s_num_parts s) (s_amt s) (s_fee s)
+           (s_feat s) (s_ttl s) (s_sigs s) c (s_proof s) (s_feat_args s).
+
+Definition set_feat_args (s : slate4) (a : option N) : slate4 :=
+  mkSlate4 (s_ver s) (s_bhv s) (s_id s) (s_sta s) (s_off s) (s_num_parts s) (s_amt s) (s_fee s)
+           (s_feat s) (s_ttl s) (s_sigs s) (s_coms s) (s_proof s) a.
+
+Definition v4_of_slate (sl : slate) : slate4 :=
+  set_coms (sl_v4 sl)
+           (match sl_tx sl with
+            | None => None
+            | Some t => Some (tx_inputs t ++ tx_outputs t)
+            end).
